@@ -73,7 +73,7 @@ func (e *Engine) Apply(op *Op) error {
 			return err
 		}
 		e.noteTarget(n)
-		return e.arrayOp(n, op)
+		return e.withIsolation(n, func() error { return e.arrayOp(n, op) })
 	// ------------------------------------------------------------ maps
 	case "mset", "mget", "mhas", "mrem", "mpop", "msetN", "mremN", "mbadget", "mbadrem", "mbadhas":
 		n := e.pick(op.T, true, false)
@@ -85,7 +85,7 @@ func (e *Engine) Apply(op *Op) error {
 			return err
 		}
 		e.noteTarget(n)
-		return e.mapOp(n, op)
+		return e.withIsolation(n, func() error { return e.mapOp(n, op) })
 	case "styp":
 		n := e.pick(op.T, true, true)
 		if n == nil {
@@ -769,4 +769,64 @@ func (e *Engine) dropDetached(op *Op) error {
 	e.removeRoot(d)
 	e.Stats.label("detached_disposed")
 	return e.dispose(atree.SlabIDStorable(d.Root))
+}
+
+
+func rootOf(n *Node) *Node {
+	for n.Parent != nil {
+		n = n.Parent
+	}
+	return n
+}
+
+// encodeTrees encodes every slab of every root tree except skip's.
+func (e *Engine) encodeTrees(skip *Node) (map[atree.SlabID][]byte, error) {
+	w := newWalk(e.St)
+	for _, r := range e.Roots {
+		if r == skip {
+			continue
+		}
+		if _, err := w.visit(r.Root, nil, false); err != nil {
+			return nil, e.viol("%v", err)
+		}
+	}
+	if err := w.encodeAll(); err != nil {
+		return nil, e.viol("%v", err)
+	}
+	out := make(map[atree.SlabID][]byte, len(w.Order))
+	for _, si := range w.Order {
+		out[si.ID] = si.Enc
+	}
+	return out, nil
+}
+
+// withIsolation (C11): an operation on a detached container must not change any slab of any other tree.
+func (e *Engine) withIsolation(n *Node, f func() error) error {
+	r := rootOf(n)
+	if !e.Or.Isolation || !r.Detached {
+		return f()
+	}
+	before, err := e.encodeTrees(r)
+	if err != nil {
+		return err
+	}
+	if err := f(); err != nil {
+		return err
+	}
+	// values handed back and kept as new detached roots are new trees: only compare what existed before
+	after, err := e.encodeTrees(r)
+	if err != nil {
+		return err
+	}
+	for id, b := range before {
+		a, ok := after[id]
+		if !ok {
+			return e.viol("operation on detached container #%d removed slab %s of another tree", n.ID, id)
+		}
+		if string(a) != string(b) {
+			return e.viol("operation on detached container #%d changed slab %s of another tree:\n  before %x\n  after  %x", n.ID, id, b, a)
+		}
+	}
+	e.Stats.label("isolation_checked")
+	return nil
 }
